@@ -552,6 +552,17 @@ impl<'a> Interpreter<'a> {
             }
         }
         let res = macro_(self, this.clone(), &v);
+
+        // A macro hands the failure of its body back as an error value. While
+        // the compiler folds constants an unbound variable must stay fatal
+        // (see InterpStack::pop), or `match` and `||` around the macro could
+        // absorb it and the surrounding call would be folded regardless.
+        if self.is_compile_time() {
+            if let CelValue::Err(err @ CelError::Binding { .. }) = res {
+                return Err(err);
+            }
+        }
+
         Ok(res)
     }
 
